@@ -119,7 +119,7 @@ inductive TaskOK (P : Program) (depth : Node → Nat) (s : St) : Task → Prop
       TaskOK P depth s tk
   | main (tk : Task) (F : Frame) (d : DagRef) : tk.name = .run → tk.frames = [F] → DagFrame P s F d → DagOK P d →
       d.dest = some P.g.output → P.g.output ∈ d.nodes → LaunchSt P s tk F → TaskOK P depth s tk
-  | mainDone (tk : Task) : tk.name = .run → tk.frames = [] → tk.st = .done .ok → (s.res P.g.output).isSome = true →
+  | mainDone (tk : Task) : tk.name = .run → tk.frames = [] → tk.st = .done .ok → Launched P s P.g.output →
       TaskOK P depth s tk
   | nodeStart (tk : Task) (d : DagRef) (q : Node) : tk.name = .node q → P.g.isSwitch q = false →
       tk.frames = [.node d q false .start] → tk.st = .runnable .go → TaskOK P depth s tk
@@ -133,7 +133,7 @@ inductive TaskOK (P : Program) (depth : Node → Nat) (s : St) : Task → Prop
   | nodeDone (tk : Task) (q : Node) (r : TaskRes) : tk.name = .node q → P.g.isSwitch q = false → tk.frames = [] →
       tk.st = .done r → r ≠ .cancelled → s.evSet q = true → TaskOK P depth s tk
   | swStart (tk : Task) (d : DagRef) (S : Node) : tk.name = .node S → P.g.isSwitch S = true →
-      tk.frames = [.switchStart d S] → tk.st = .runnable .go → TaskOK P depth s tk
+      tk.frames = [.switchStart d S] → d.isOneof = false → tk.st = .runnable .go → TaskOK P depth s tk
   | swIn (tk : Task) (F : Frame) (sub d : DagRef) (S : Node) : tk.name = .node S → P.g.isSwitch S = true →
       tk.frames = [F, .switchRet d S] → DagFrame P s F sub → SubOK' P depth s sub S → LaunchSt P s tk F →
       TaskOK P depth s tk
@@ -187,8 +187,8 @@ structure LiveP (P : Program) (depth : Node → Nat) : Prop where
   casePlain : ∀ e ∈ P.g.edges, e.case.isSome = true → P.g.isSwitch e.u = false
   /-- the reduced DAGs the engine builds — up to the output, up to a case node — end in their destination, are closed
   under dependencies, and contain only nodes at most as deep as the destination -/
-  dagsOK   : ∀ (s : St) (dst : Node) (d : DagRef), reducedRef P s P.g.input dst false false false = some d →
-    (dst = P.g.output ∨ ∃ e ∈ P.g.edges, e.u = dst ∧ e.case.isSome = true) →
+  dagsOK   : ∀ (s : St) (dst : Node), (dst = P.g.output ∨ ∃ e ∈ P.g.edges, e.u = dst ∧ e.case.isSome = true) →
+    ∃ d, reducedRef P s P.g.input dst false false false = some d ∧
     d.dest = some dst ∧ dst ∈ d.nodes ∧ (∀ m ∈ d.nodes, ∀ u ∈ basePreds P m, u ∈ d.nodes) ∧ ∀ x ∈ d.nodes, depth x ≤ depth dst
 
 /-! ### the static part: a state that satisfies `Struct` is not stuck -/
@@ -272,7 +272,7 @@ theorem launcher_facts {P : Program} {depth : Node → Nat} {s : St} {tk : Task}
   | nodeWait d0 q hn hns hfr hst hproc => rw [hfr] at hf; simp at hf
   | nodeExec d0 q pc hn hns hfr hpc1 hpc2 hlive hproc hnores => rw [hfr] at hf; simp at hf
   | nodeDone q r0 hn hns hfr hst hnc hev => rw [hfr] at hf; simp at hf
-  | swStart d0 S0 hn hsS hfr hst => rw [hfr] at hf; simp at hf
+  | swStart d0 S0 hn hsS hfr hno1 hst => rw [hfr] at hf; simp at hf
   | swIn F sub d0 S0 hn hsS hfr hdf hsub hst =>
     rw [hfr] at hf
     simp only [List.cons.injEq] at hf
@@ -308,7 +308,7 @@ theorem swOwner_task {P : Program} {depth : Node → Nat} {s : St} {tk : Task} (
   | nodeExec d0 q pc hn hns hfr hpc1 hpc2 hlive hproc hnores =>
     rcases hfr' with ⟨d1, h⟩ | ⟨d1, h⟩ | ⟨d1, s1, h⟩ | ⟨d1, s1, r1, h⟩ <;> rw [hfr] at h <;> simp at h
   | nodeDone q r0 hn hns hfr hst hnc hev => exact absurd hst (hnd _)
-  | swStart d0 S0 hn hsS hfr hst => exact Or.inl ⟨_, hst⟩
+  | swStart d0 S0 hn hsS hfr hno1 hst => exact Or.inl ⟨_, hst⟩
   | swIn F sub d0 S0 hn hsS hfr hdf hsub hst =>
     rcases hfr' with ⟨d1, h⟩ | ⟨d1, h⟩ | ⟨d1, s1, h⟩ | ⟨d1, s1, r1, h⟩
     · rw [hfr] at h; simp at h
@@ -390,7 +390,7 @@ theorem launcher_absurd {P : Program} {depth : Node → Nat} (hp : LiveP P depth
         | nodeWait d0 q hn hns hfr hst hproc => rw [hn] at hname; cases hname; rw [hSu] at hns; cases hns
         | nodeExec d0 q pc hn hns hfr hpc1 hpc2 hlive hproc hnores => rw [hn] at hname; cases hname; rw [hSu] at hns; cases hns
         | nodeDone q r0 hn hns hfr hst hnc hev => rw [hn] at hname; cases hname; rw [hSu] at hns; cases hns
-        | swStart d0 S0 hn hsS hfr hst => exact hq.not_runnable hi' ⟨_, hst⟩
+        | swStart d0 S0 hn hsS hfr hno1 hst => exact hq.not_runnable hi' ⟨_, hst⟩
         | swIn F sub d0 S0 hn hsS hfr hdf hsub hst =>
           have hSS : S0 = u := by rw [hn] at hname; cases hname; rfl
           subst hSS
@@ -434,12 +434,14 @@ theorem struct_live {P : Program} {depth : Node → Nat} (hp : LiveP P depth) {s
       | wait _ hall =>
         have := launched_has_result hs.data hq herr hp.outPlain (hall _ hout)
         simp [St.exists, hno] at this
-    | mainDone hn hfr hst hres => rw [hno] at hres; cases hres
+    | mainDone hn hfr hst hres =>
+      have := launched_has_result hs.data hq herr hp.outPlain hres
+      simp [St.exists, hno] at this
     | nodeStart d0 q hn hns hfr hst => rw [hn] at hname1; cases hname1
     | nodeWait d0 q hn hns hfr hst hproc => rw [hn] at hname1; cases hname1
     | nodeExec d0 q pc hn hns hfr hpc1 hpc2 hlive hproc hnores => rw [hn] at hname1; cases hname1
     | nodeDone q r0 hn hns hfr hst hnc hev => rw [hn] at hname1; cases hname1
-    | swStart d0 S0 hn hsS hfr hst => rw [hn] at hname1; cases hname1
+    | swStart d0 S0 hn hsS hfr hno1 hst => rw [hn] at hname1; cases hname1
     | swIn F sub d0 S0 hn hsS hfr hdf hsub hst => rw [hn] at hname1; cases hname1
     | swRet d0 S0 hn hsS hfr hst hsw => rw [hn] at hname1; cases hname1
     | swDone S0 r0 hn hsS hfr hst hnc hok => rw [hn] at hname1; cases hname1
@@ -449,7 +451,7 @@ theorem struct_live {P : Program} {depth : Node → Nat} (hp : LiveP P depth) {s
   | nodeWait d0 q hn hns hfr hst hproc => rw [hn] at hname; cases hname
   | nodeExec d0 q pc hn hns hfr hpc1 hpc2 hlive hproc hnores => rw [hn] at hname; cases hname
   | nodeDone q r0 hn hns hfr hst hnc hev => rw [hn] at hname; cases hname
-  | swStart d0 S0 hn hsS hfr hst => rw [hn] at hname; cases hname
+  | swStart d0 S0 hn hsS hfr hno1 hst => rw [hn] at hname; cases hname
   | swIn F sub d0 S0 hn hsS hfr hdf hsub hst => rw [hn] at hname; cases hname
   | swRet d0 S0 hn hsS hfr hst hsw => rw [hn] at hname; cases hname
   | swDone S0 r0 hn hsS hfr hst hnc hok => rw [hn] at hname; cases hname
